@@ -4,7 +4,7 @@
    adjudicated per run by the C01 admission rule (Properties_C01), and "a later solve can only keep or improve" is the
    solution-set theorem C04_best_never_worse (Properties_C04). *)
 From Coq Require Import List ZArith Bool Arith.
-From OmplV Require Import PisModel PisProofs LedgerModel LedgerProofs RrtModel RrtProofs.
+From OmplV Require Import PisModel PisProofs LedgerModel LedgerProofs RrtModel RrtProofs RrtConnectModel RrtConnectProofs.
 Import ListNotations.
 
 (* a fresh query hands out every valid in-bounds start exactly once, in order, then reports that none is left *)
@@ -52,13 +52,25 @@ Theorem C03_rrt_family_resumed_solves_report_real_paths :
          (EdgeOk : St -> E -> St -> Prop),
   (forall a b c, dlt a b = true -> dlt b c = true -> dlt a c = true) -> (forall a, dlt a a = false) ->
   (forall n i, echain_ok St E EdgeOk n (extend n i)) -> (forall tree i, tree <> [] -> (select tree i < length tree)%nat) ->
-  forall starts calls tree0 new_starts, TInv St E EdgeOk starts tree0 -> (forall x, In x new_starts -> In x starts) ->
+  forall starts calls tree0 new_starts, RrtProofs.TInv St E EdgeOk starts tree0 -> (forall x, In x new_starts -> In x starts) ->
   tree0 ++ map (fun x => (x, None)) new_starts <> [] ->
   let res := tree_calls St D I E dlt select extend sat gdist dflt tree0 new_starts calls in
-  TInv St E EdgeOk starts (fst res) /\
-  Forall (fun rep => exists base tree, report_ok St D E sat gdist dlt dflt EdgeOk starts base tree rep /\ TInv St E EdgeOk starts tree /\
+  RrtProofs.TInv St E EdgeOk starts (fst res) /\
+  Forall (fun rep => exists base tree, report_ok St D E sat gdist dlt dflt EdgeOk starts base tree rep /\ RrtProofs.TInv St E EdgeOk starts tree /\
                                        exists ext, fst res = tree ++ ext) (snd res).
 Proof. exact tree_calls_spec. Qed.
+(* resumed solves of geometric::RRTConnect (RrtConnectModel.rc_solves: both trees, the alternation flag and the count of goal states
+   taken are kept across calls, the solution and the approximate solution are local to a call): for every number of calls and every
+   sample stream per call both trees keep their invariants and every call's report is real — an exact one runs from a start state to
+   a goal state with every consecutive pair validated in the direction it is traversed, an approximate one is a start-tree chain *)
+Theorem C03_rrtconnect_resumed_solves_report_real_paths :
+  forall (St D : Type) dist (dlt : D -> D -> bool) steer mvS mvG gdist goals (dflt : St),
+  (forall n r d, steer n r = Some (d, true) -> d = r) ->
+  forall starts fuel calls, starts <> [] ->
+  Forall (ReportOk St D mvS mvG gdist goals dflt starts) (snd (rc_solves St D dist dlt steer mvS mvG gdist goals dflt fuel starts calls)) /\
+  RrtConnectProofs.TInv St mvS mvG true starts (c_ts St D (fst (rc_solves St D dist dlt steer mvS mvG gdist goals dflt fuel starts calls))) /\
+  RrtConnectProofs.TInv St mvS mvG false goals (c_tg St D (fst (rc_solves St D dist dlt steer mvS mvG gdist goals dflt fuel starts calls))).
+Proof. exact rc_solves_spec. Qed.
 Theorem C03_admission_sound : forall r, admissible r = true ->
   (is_solution_status (r_status r) = true -> C01_solution r) /\
   (is_solution_status (r_status r) = false -> r_paths_after r = r_paths_before r).
@@ -72,6 +84,7 @@ Print Assumptions C03_same_problem_definition_keeps_progress.
 Print Assumptions C03_after_clear_only_current_starts.
 Print Assumptions C03_goal_samples_bounded.
 Print Assumptions C03_rrt_family_resumed_solves_report_real_paths.
+Print Assumptions C03_rrtconnect_resumed_solves_report_real_paths.
 Print Assumptions C03_admission_sound.
 
 Example C03_nonvacuous :
